@@ -33,8 +33,14 @@ type Hist struct {
 // NewHist creates n replicas of typ.
 func NewHist(s Stepper, g *Gen, typ string, n int) *Hist {
 	h := &Hist{S: s, G: g, Typ: typ, Log: &Log{}}
+	seen := map[string]bool{}
 	for i := 0; i < n; i++ {
-		h.Reps = append(h.Reps, NewRep(i, typ))
+		cuid := SeededCUID(g.R)
+		for seen[cuid] {
+			cuid = SeededCUID(g.R)
+		}
+		seen[cuid] = true
+		h.Reps = append(h.Reps, NewRepCUID(i, typ, cuid))
 	}
 	return h
 }
